@@ -271,6 +271,42 @@ pub fn features() -> Vec<(&'static str, Vec<Item>)> {
             ],
         ),
         ("operators", vec![def("ops", vec![], Some(operator_fields()))]),
+        (
+            // every kind of scoped name is reused, after its scope has ended, as the name of a def that is
+            // then passed where a record of class A is required: a leaked binding (an int) would be incompatible
+            "scoped-name-reuse",
+            vec![
+                Item::Defvar { name: "nr_l1".into(), value: E::BForeach("nr".into(), Box::new(id("gl")), Box::new(bang("!add", vec![id("nr"), int(1)]))) },
+                Item::Defvar { name: "nr_l2".into(), value: E::BFilter("nr2".into(), Box::new(id("gl")), Box::new(bang("!gt", vec![id("nr2"), int(1)]))) },
+                Item::Defvar { name: "nr_l3".into(), value: E::BFoldl(Box::new(int(0)), Box::new(id("gl")), "nacc".into(), "nel".into(), Box::new(bang("!add", vec![id("nacc"), id("nel")]))) },
+                def("nr_h", vec![], Some(vec![f(list(Ty::Int), "in_body", E::BForeach("nrb".into(), Box::new(id("gl")), Box::new(bang("!add", vec![id("nrb"), int(1)]))))])),
+                Item::Foreach { var: "nit".into(), list: E::List(vec![int(1)]), body: vec![def("nr_fe", vec![a_of(vec![id("nit")])], None)], braces: true },
+                Item::If { cond: E::Bool(true), then: vec![Item::Defvar { name: "nblk".into(), value: int(1) }, def("nr_if", vec![a_of(vec![id("nblk")])], None)], then_braces: true, els: None },
+                c("NRT", vec![ti("nta")], vec![], Some(vec![f(Ty::Int, "nfld", id("nta"))])),
+                Item::Multiclass { doc: vec![], name: "NRM".into(), targs: vec![ti("nma")], parents: vec![], body: vec![def("_nrm", vec![a_of(vec![id("nma")])], None)] },
+                c("NRUse", vec![TArg { ty: class_a(), name: "r".into(), default: None }], vec![], Some(vec![f(class_a(), "own", id("r"))])),
+                def("nr", vec![a_of(vec![int(1)])], None),
+                def("nr2", vec![a_of(vec![int(2)])], None),
+                def("nacc", vec![a_of(vec![int(3)])], None),
+                def("nel", vec![a_of(vec![int(4)])], None),
+                def("nrb", vec![a_of(vec![int(5)])], None),
+                def("nit", vec![a_of(vec![int(6)])], None),
+                def("nblk", vec![a_of(vec![int(7)])], None),
+                def("nta", vec![a_of(vec![int(8)])], None),
+                def("nfld", vec![a_of(vec![int(9)])], None),
+                def("nma", vec![a_of(vec![int(10)])], None),
+                def("nru1", vec![CRef::with("NRUse", vec![id("nr")])], None),
+                def("nru2", vec![CRef::with("NRUse", vec![id("nr2")])], None),
+                def("nru3", vec![CRef::with("NRUse", vec![id("nacc")])], None),
+                def("nru4", vec![CRef::with("NRUse", vec![id("nel")])], None),
+                def("nru5", vec![CRef::with("NRUse", vec![id("nrb")])], None),
+                def("nru6", vec![CRef::with("NRUse", vec![id("nit")])], None),
+                def("nru7", vec![CRef::with("NRUse", vec![id("nblk")])], None),
+                def("nru8", vec![CRef::with("NRUse", vec![id("nta")])], None),
+                def("nru9", vec![CRef::with("NRUse", vec![id("nfld")])], None),
+                def("nru10", vec![CRef::with("NRUse", vec![id("nma")])], None),
+            ],
+        ),
         ("assert-dump", vec![Item::Assert { cond: bang("!eq", vec![id("gi"), int(3)]), msg: s("msg") }, Item::Dump(E::Paste(Box::new(s("text")), Box::new(id("gs"))))]),
         (
             "subclass-cast",
